@@ -50,6 +50,8 @@ func quantSort(ty string) (string, Sort) {
 		return "Heap", SUnk
 	case "perm":
 		return "(Array Int Int)", SPerm
+	case "ord":
+		return "(Array Int Str)", SOrd
 	}
 	return "Int", SInt
 }
@@ -228,6 +230,10 @@ func (e *SpecEnv) eval(x Expr) SV {
 			return term(fmt.Sprintf("(at %s %s)", v.T, i), SInt)
 		case v.K == KTerm && v.S == SPerm:
 			return term(fmt.Sprintf("(select %s %s)", v.T, i), SInt)
+		case v.K == KTerm && v.S == SOrd:
+			return term(fmt.Sprintf("(select %s %s)", v.T, i), SStr)
+		case v.K == KTerm && v.S == SOrdInv:
+			return term(fmt.Sprintf("(select %s %s)", v.T, i), SInt)
 		}
 		e.fail("cannot index %s", v.String())
 	case *ESlice:
@@ -317,6 +323,13 @@ func (e *SpecEnv) call(n *ECall) SV {
 			return term(v.Off, SInt)
 		}
 		e.fail("off of %s", v.String())
+	case "dom":
+		// dom(m): key-set array of map m
+		v := arg(0)
+		if v.K == KMap {
+			return term(fmt.Sprintf("(select (MDom %s) %s)", e.H, v.T), SUnk)
+		}
+		e.fail("dom of %s", v.String())
 	case "mapid":
 		v := arg(0)
 		if v.K == KMap {
